@@ -188,7 +188,8 @@ impl GitVcs {
 
     /// Get all tags pointing to a commit hash
     fn get_all_tags_from_commit_hash(&self, commit_hash: &str) -> Vec<String> {
-        match self.run_git_command(&["tag", "--points-at", commit_hash]) {
+        // `--no-column`: with column.ui / column.tag = always git prints several tags per line
+        match self.run_git_command(&["tag", "--no-column", "--points-at", commit_hash]) {
             Ok(tags_output) => tags_output
                 .lines()
                 .map(|line| line.trim().to_string())
